@@ -132,7 +132,8 @@ class Sequence(AbstractSequence):
         ]
         if not picked:
             return location.relative_interval_to_parent_location(0, 0, Strand.PLUS)
-        return reduce(lambda x, y: x.union(y), picked).optimize_blocks()
+        # (a base that the location reads twice and the slice picks twice is recorded twice)
+        return reduce(lambda x, y: x.union_preserve_overlaps(y), picked).optimize_blocks()
 
     def __repr__(self):
         return "<{}>".format(self.summary())
